@@ -74,6 +74,8 @@ func (c *bctx) build(n *Node) jen.Code {
 		return jen.Lit(n.I)
 	case "str":
 		return jen.Lit(n.S)
+	case "bigstr":
+		return jen.Lit(strings.Repeat("x", n.I))
 	case "qual":
 		return jen.Qual(c.path(n.I), n.S)
 	case "call":
@@ -239,6 +241,17 @@ type simWriter struct {
 func (w *simWriter) Write(p []byte) (int, error) {
 	w.calls++
 	w.sizes = append(w.sizes, len(p))
+	if w.plan != nil && w.plan.Reenter && w.calls == 1 {
+		// a writer that, before consuming p, causes an unrelated File to be rendered by the
+		// same goroutine (a logging or progress hook): p must still be this call's output
+		other := jen.NewFile("reentered")
+		other.NoFormat = true
+		other.Var().Id("reentered").Op("=").Lit(strings.Repeat("R", 64+len(p)))
+		other.Render(io.Discard)
+		otherF := jen.NewFile("reentered2")
+		otherF.Var().Id("again").Op("=").Lit(len(p))
+		otherF.Render(io.Discard)
+	}
 	if w.plan != nil && w.plan.FailAt == w.calls {
 		w.fired = true
 		if w.plan.Kind == "short" {
@@ -394,7 +407,8 @@ func setupTarget(sub string, plan *FSPlan, op int) (target string, structural bo
 	target = filepath.Join(sub, "out.go")
 	switch plan.Target {
 	case "existing":
-		os.WriteFile(target, []byte(fmt.Sprintf("// KEEP %d\npackage keep\n", op)), 0644)
+		// longer than most outputs, so that a Save that does not truncate shows
+		os.WriteFile(target, []byte(fmt.Sprintf("// KEEP %d\npackage keep\n", op)+strings.Repeat("// old line of a previous, longer version\n", 1+plan.Part*40)), 0644)
 		os.Chtimes(target, oldTime, oldTime)
 	case "isdir":
 		os.MkdirAll(target, 0755)
